@@ -437,6 +437,28 @@ pub fn gen_bytes(rng: &mut Rng, len: usize) -> Vec<u8> {
     }
 }
 
+/// Near misses of a name: every one of them is another name and must get another address. Other letter case, padding,
+/// an appended NUL, every character moved by 256 or 65 536 code points (equal low bytes), the first character's UTF-8
+/// bytes read as Latin-1, a decomposed accent, the name twice, the name reversed.
+pub fn name_variants(base: &str) -> Vec<String> {
+    let mut v = vec![base.to_uppercase(), base.to_lowercase(), format!("{} ", base), format!(" {}", base), format!("{}\u{0}", base), format!("{}{}", base, base), base.chars().rev().collect()];
+    for shift in [0x100u32, 0x200, 0x1_0000] {
+        v.push(base.chars().map(|c| char::from_u32(c as u32 + shift).unwrap_or(c)).collect());
+        // only the first character moved
+        let mut cs: Vec<char> = base.chars().collect();
+        if let Some(c0) = cs.first_mut() {
+            *c0 = char::from_u32(*c0 as u32 + shift).unwrap_or(*c0);
+        }
+        v.push(cs.into_iter().collect());
+    }
+    v.push(base.bytes().map(|b| b as char).collect());
+    v.push(base.replace('é', "e\u{301}").replace('e', "é"));
+    v.retain(|x| x != base);
+    v.sort();
+    v.dedup();
+    v
+}
+
 pub fn gen_name(rng: &mut Rng) -> String {
     match rng.below(10) {
         0 => String::new(),
